@@ -278,23 +278,11 @@ func stripReturnValue(ps propertySet, key interface{}) (interface{}, propertySet
 	if top.chain == nil || top.chain == noProperty {
 		return nil, ps
 	}
-	return stripChainReturnValue(top, top, top.chain, key)
-}
-
-func stripChainReturnValue(top, parent *valueProperty, this_ propertySet, key interface{}) (interface{}, propertySet) {
-	this, ok := this_.(*valueProperty)
-	if !ok {
-		// we break the chain if non-valueProperty are intermingled
-		return nil, top
+	// Links may be shared with copies of the owner, so never edit in place:
+	// rebuild the links above the one being removed.
+	val, rest := stripReturnValue(top.chain, key)
+	if rest == top.chain {
+		return nil, ps
 	}
-	if this.key == key {
-		// caller ensures that this != top/parent
-		parent.chain = this.chain
-		this.chain = nil
-		return this.val, top
-	}
-	if this.chain == nil || this.chain == noProperty {
-		return nil, top
-	}
-	return stripChainReturnValue(top, this, this.chain, key)
+	return val, &valueProperty{rest, top.key, top.val}
 }
